@@ -704,6 +704,16 @@ func (g *Gen) specBin(e *E, cx *Ctx) Val {
 		case "%":
 			return Val{T: specIntType(rt), C: []Term{{app("go_rem", x.S, y.S), SInt}}}
 		}
+		if cv, ok := parseIntLit(y.S); ok {
+			if r, ok := intBitop(op, x.S, cv); ok {
+				return Val{T: rt, C: []Term{{r, SInt}}}
+			}
+		}
+		if cv, ok := parseIntLit(x.S); ok && op != "&^" {
+			if r, ok := intBitop(op, y.S, cv); ok {
+				return Val{T: rt, C: []Term{{r, SInt}}}
+			}
+		}
 		oos("operator %s on mathematical integers (use arith mixed/bv)", op)
 	}
 	// bit-vectors
